@@ -232,6 +232,77 @@ def exec_layout(case):
     return out
 
 
+# ----------------------------------------------------------------------------- (d) scale of another float dtype than the tensor
+
+@st.composite
+def mixed_cases(draw):
+    dn = draw(gen.dtypes)
+    sn = draw(st.sampled_from([d for d in ("fp32", "fp16", "bf16") if d != dn]))
+    if sn == "fp32":
+        kind = draw(st.sampled_from(["bits", "pow2", "named", "mid", "mid"]))
+        if kind == "bits":
+            b = draw(st.integers(1, 0x7F7FFFFF))
+        elif kind == "pow2":
+            b = draw(st.integers(1, 254)) << 23
+        elif kind == "mid":
+            # 2^-34 .. 2^16: below, inside and above what the 16-bit dtypes of the tensor can hold
+            b = (draw(st.integers(93, 143)) << 23) | draw(st.integers(0, 0x7FFFFF))
+        else:
+            b = draw(st.sampled_from([0x00000001, 0x007FFFFF, 0x00800000, 0x3F800000, 0x7F7FFFFF, 0x3F7FFFFF, 0x3C010204, 0x358637BD, 0x3089705F, 0x3649539C]))
+    else:
+        allb = gen.positive_finite_bits(gen.DT[sn])
+        b = allb[draw(st.integers(0, len(allb) - 1))]
+    return {
+        "dtype": dn,
+        "sdtype": sn,
+        "qtype": draw(st.sampled_from(sorted(O.QT8))),
+        "scale_bits": b,
+        "entry": draw(st.sampled_from(["qa", "qa", "sq", "ax0", "ax-1"])),
+        "rows": draw(st.integers(2, 5)),
+        "spread": draw(st.lists(st.integers(-4, 4), min_size=1, max_size=5)),
+        "seed": draw(st.integers(0, 2**20)),
+    }
+
+
+def exec_mixed(case):
+    out = Outcome()
+    dtype, sdtype = gen.DT[case["dtype"]], gen.DT[case["sdtype"]]
+    qtype = O.QT8[case["qtype"]]
+    base = gen.from_bits([case["scale_bits"]], sdtype).reshape(())
+    entry = case["entry"]
+    tag = f"mixed/{entry}/{qtype.name}/{case['dtype']}-scale-{case['sdtype']}"
+    if entry in ("qa", "sq"):
+        scale = base
+        x = gen.clamp_finite(fp32_values(qtype, scale.to(torch.float32), case["seed"]).to(torch.float64), dtype)
+        axis = None
+    else:
+        n = case["rows"]
+        f = torch.tensor([2.0 ** case["spread"][i % len(case["spread"])] for i in range(n)], dtype=torch.float64)
+        sc = (base.to(torch.float64) * f).to(sdtype)
+        sc = torch.where(torch.isfinite(sc) & (sc > 0), sc, base)
+        cols = [gen.clamp_finite(fp32_values(qtype, sc[i].to(torch.float32), case["seed"] + i).to(torch.float64), dtype)[:1500] for i in range(n)]
+        m = min(len(c) for c in cols)
+        x = torch.stack([c[:m] for c in cols])  # (n, m), row i on the grid of scale i
+        if entry == "ax0":
+            axis, scale = 0, sc.reshape(n, 1)
+        else:
+            axis, scale, x = -1, sc.reshape(1, n), x.t().contiguous()
+    if entry == "qa":
+        q = cut(quantize_activation, x, qtype, scale)
+    else:
+        q = cut(SymmetricQuantizer.apply, x, qtype, axis, scale)
+    if isinstance(q, Raised):
+        return out.fail(f"{tag}/raises:{q.type}", q.text)
+    stats, _, _ = O.check_N(out, tag, x, scale, q, qtype, idem=False, mixed=True)
+    s64 = base.to(torch.float64)
+    as_x = s64.to(dtype).to(torch.float64)
+    changed = not (abs(as_x.item() - s64.item()) <= s64.item() * 2.0**-20) or s64.item() < gen.MINNORMAL[dtype]
+    out.nontrivial = bool(stats) and stats.get("interior", 0) > 0 and changed
+    out.fingerprint = [case["dtype"], case["sdtype"], case["qtype"], case["scale_bits"], entry]
+    out.klass = [f"x-{case['dtype']}", f"scale-{case['sdtype']}", entry, "scale-not-representable-in-x-dtype" if changed else "scale-representable"] + _classes(stats)
+    return out
+
+
 def _run(strategy, execute):
     def run(ctx):
         drive(ctx, strategy, execute, max(1, int(ctx.params["n"] * ctx.params.get("scale", 1))))
@@ -243,4 +314,5 @@ SUBCHECKS = {
     "square": {"run": run_square, "execute": exec_square},
     "fp32": {"run": _run(fp32_cases(), exec_fp32), "execute": exec_fp32},
     "layout": {"run": _run(layout_cases(), exec_layout), "execute": exec_layout},
+    "mixed": {"run": _run(mixed_cases(), exec_mixed), "execute": exec_mixed},
 }
